@@ -156,7 +156,7 @@ def to_sympy(t):
     if k == 'lit':
         x, style = t[1], t[2]
         if x.denominator != 1 and style == 'dec':
-            return sympy.Float(_dec(x))
+            return sympy.Float(_dec(x)) if x > 0 else -sympy.Float(_dec(-x))
         return sympy.Rational(x.numerator, x.denominator)
     if k == 'var':
         return sympy.Symbol(t[1])
@@ -290,6 +290,7 @@ class Track:
         self.fragile = False
         self.err = 0.0                # running absolute error bound of the final value(s)
         self.big = False              # an intermediate left the comfortable range
+        self.dead_error = False       # the body of an empty Sum is undefined (sympy may evaluate it while parsing)
         self.reversed_sum = False     # a Sum with upper limit < lower limit - 1 was evaluated (known finding PF-27)
 
 
@@ -385,7 +386,7 @@ def _sc_bin(tr, k, x, y):
         q = a / b
         fl = math.floor(q)
         eq_ = (x.e + abs(float(q)) * y.e) / max(fb - y.e, 1e-300) if (x.e or y.e) else 0.0
-        if eq_ > 0:
+        if x.e or y.e:
             dist = min(q - fl, fl + 1 - q) if q != fl else 0
             if dist <= 4 * eq_ + 1e-9:
                 tr.fragile = True
@@ -487,6 +488,13 @@ def ref_eval(tr: Track, t, env):
         hi = _to_int(ref_eval(tr, t[3], env))
         if hi < lo - 1:
             tr.reversed_sum = True
+        if hi < lo:
+            try:
+                e2 = dict(env)
+                e2[t[1]] = N(F(lo), 0.0)
+                ref_eval(Track(tr.floats), t[4], e2)
+            except RefError:
+                tr.dead_error = True
         acc = N(F(0), 0.0)
         for j in range(lo, hi + 1):
             e2 = dict(env)
@@ -789,7 +797,14 @@ def gen_num(rng, cfg, depth, bound=()):
     d = depth - 1
     if op == 'leaf':
         return gen_leaf(rng, cfg, bound)
-    if op in ('add', 'sub', 'mul', 'div', 'min', 'max', 'mod'):
+    if op == 'mod':
+        # the modulus is a non-zero literal (`t % period`): for two symbolic arguments with a common factor sympy's
+        # automatic simplification is wrong for negative multiples (Mod(x, -7*x) -> x), see notes/C12.md
+        m = gen_lit(rng, cfg)
+        while m[1] == 0:
+            m = gen_lit(rng, cfg)
+        return ('mod', gen_num(rng, cfg, d, bound), m)
+    if op in ('add', 'sub', 'mul', 'div', 'min', 'max'):
         return (op, gen_num(rng, cfg, rng.randint(0, d), bound), gen_num(rng, cfg, d, bound)) if rng.random() < 0.5 \
             else (op, gen_num(rng, cfg, d, bound), gen_num(rng, cfg, rng.randint(0, d), bound))
     if op in ('neg', 'floor', 'ceil', 'abs'):
@@ -895,6 +910,7 @@ def prepare(case: Case):
         case.ref = ('error', e.cls)
         err = 0.0
     case.scale = tr.scale
+    case.dead_error = tr.dead_error
     if tr.reversed_sum and PF27_LISTED[0]:
         case.skip = 'known-PF-27'
     elif case.floats and (tr.fragile or tr.big):
@@ -943,7 +959,8 @@ def verdict(ctx, case: Case, ans):
             return None
         if head == 'undefined':
             ctx.count(fam + ':formula-undefined:' + ans[1][1])
-            if ans[1][1] in ('index_error',) or (ans[1][1] == 'unbound' and case.extra.get('missing_in_variables')):
+            # (an index error or a division by zero can disappear by sympy's simplification, `0*v[9]`: no demand)
+            if ans[1][1] == 'unbound' and case.extra.get('missing_in_variables'):
                 return ('drift', 'implementation returned %r where the model has error %s' % (impl[1], ans[1][1]))
             return None
         if head == 'violates':
@@ -974,6 +991,9 @@ def verdict(ctx, case: Case, ans):
         return None
     if not is_core(case.tree):
         ctx.count(fam + ':unsupported-combination:' + exc)
+        return None
+    if getattr(case, 'dead_error', False):
+        ctx.count(fam + ':undefined-body-of-empty-sum:' + exc)
         return None
     return ('violation', 'raised %s (%s) where the written formula has the value %s'
             % (exc, impl[2][:120], _show(parse_val(ans[1]))))
@@ -1541,7 +1561,8 @@ def fam_partial(ctx, n):
         elif r < 0.75:
             cfg, kinds, final = Cfg(numbers='general'), ('float', 'int'), 'numeric'
         else:
-            cfg, kinds, final = Cfg(numbers='rational', lit_styles=('int', 'frac'), bindex=False), ('tt', 'int'), 'exact'
+            # (no arrays here: exact mode is scalar-only, a symbolically substituted array of rationals is printed as floats)
+            cfg, kinds, final = Cfg(numbers='rational', lit_styles=('int', 'frac'), bindex=False, index=False), ('tt', 'int'), 'exact'
         if final == 'numeric' and rng.random() < 0.3:
             cfg.elementwise = ['t']
             cfg.bindex = False
@@ -1959,7 +1980,7 @@ def fam_small_scope(ctx):
     else:
         leaves = [var('a'), var('b'), lit(2), lit(F(1, 2)), lit(-3)]
         unary = [('neg',), ('floor',), ('ceil',), ('abs',), ('pow', -1), ('pow', 2)]
-        binary = ['add', 'sub', 'mul', 'div', 'max', 'min', 'mod']
+        binary = ['add', 'sub', 'mul', 'div', 'max', 'min']
     trees = small_scope_trees(leaves, unary, binary)
     ctx.exhaustive_spaces.append('all formulas of depth <= 2 over leaves {a, b, 2, 1/2%s}, unary %s, binary %s: %d formulas, each in numeric '
                                  'mode (a=3.5, b=-2 float/int) and exact mode (a=7/3 TimeType, b=-2 int)'
